@@ -4,6 +4,12 @@
 //! (public `Effect` trait) on sub-tracks record `info.modulator_value(id)`, the value of a
 //! `Parameter<f64>` linked through `Value::FromModulator`, and `info.clock_info`; probe modulators
 //! (public `Modulator` trait) record every `update` call with its `dt` and what they read.
+//! Strengthened (see the three sections before `run`): (A) a tweener's command histories with delayed and
+//! clock-timed starts, sets to the present value / previous target / initial value, overwritten sets, read once per
+//! chunk and compared bit for bit with the tween law; (B) listeners whose position is linked to a modulator or waits
+//! for a clock time, read IN THE SAME CHUNK by probe effects on spatial tracks (`listener_info`, `listener_distance`);
+//! (C) `add_modulator` + a reader linked to it created inside one `Renderer::on_start_processing` at every point
+//! where user code runs there (hook effects / sounds / modulators): the reader follows the modulator for ever.
 use crate::backend::*;
 use crate::util::*;
 use kira::clock::{ClockHandle, ClockId, ClockSpeed};
@@ -1432,6 +1438,1214 @@ fn check_dc(sc: &Scen, tr: &Trace, fails: &mut Vec<(String, Option<&'static str>
 	}
 }
 
+// ==========================================================================================
+// (A) the tweener's command histories: `set` while an earlier transition is pending (delayed or
+//     clock-timed start) or running; sets to the present value, to the previous target, to the
+//     initial value; repeated sets between callbacks.  The history is built ADAPTIVELY (a "set to
+//     the present value" takes the value the probe read last); what is checked and sent to the
+//     model is the resulting concrete history.
+// ==========================================================================================
+#[derive(Clone, Copy, Debug, PartialEq)]
+enum XSt {
+	Imm,
+	Delay(u64),
+	Clock { ticks: u64, frac: f64 },
+}
+#[derive(Clone, Copy, Debug)]
+struct XTw {
+	st: XSt,
+	dur_ns: u64,
+	e: Easing,
+}
+#[derive(Clone, Copy, Debug)]
+enum TwTarget {
+	Val(f64),
+	/// the value the tweener has right now (read by the probe in the last chunk)
+	Current,
+	/// the target of the previous command
+	Previous,
+	Initial,
+}
+#[derive(Clone, Debug)]
+enum TwPlan {
+	Set(TwTarget, XTw),
+	Ticking(bool),
+	Cb(usize),
+}
+#[derive(Clone, Debug)]
+enum TwOp {
+	Set { target: f64, tw: XTw },
+	Ticking(bool),
+	Cb { frames: usize },
+}
+#[derive(Clone, Debug)]
+struct TwScen {
+	sr: u32,
+	ibs: usize,
+	init: f64,
+	clock_tps: Option<f64>,
+	ops: Vec<TwOp>,
+}
+#[derive(Clone, Debug)]
+struct TwRec {
+	len: usize,
+	value: Option<f64>,
+	clock: Option<(bool, u64, f64)>,
+}
+struct TwProbe {
+	watch: ModulatorId,
+	clock: Option<ClockId>,
+	log: Arc<Mutex<Vec<TwRec>>>,
+}
+impl Effect for TwProbe {
+	fn process(&mut self, input: &mut [Frame], _dt: f64, info: &Info) {
+		let clock = self.clock.and_then(|c| info.clock_info(c)).map(|c| (c.ticking, c.time.ticks, c.time.fraction));
+		self.log.lock().unwrap().push(TwRec { len: input.len(), value: info.modulator_value(self.watch), clock });
+	}
+}
+fn to_start(st: XSt, clock: Option<ClockId>) -> StartTime {
+	match st {
+		XSt::Imm => StartTime::Immediate,
+		XSt::Delay(ns) => StartTime::Delayed(Duration::from_nanos(ns)),
+		XSt::Clock { ticks, frac } => StartTime::ClockTime(kira::clock::ClockTime { clock: clock.expect("a clock start time needs a clock"), ticks, fraction: frac }),
+	}
+}
+fn to_xtween(t: &XTw, clock: Option<ClockId>) -> Tween {
+	Tween { start_time: to_start(t.st, clock), duration: Duration::from_nanos(t.dur_ns), easing: t.e }
+}
+/// runs the plan on the real code; returns the concrete history and what the probe read, one record per chunk
+fn exec_tw(sr: u32, ibs: usize, init: f64, clock_tps: Option<f64>, plan: &[TwPlan]) -> (TwScen, Vec<TwRec>) {
+	let mut mgr = manager(sr, ibs, Capacities::default(), MainTrackBuilder::new());
+	let mut tw = mgr.add_modulator(TweenerBuilder { initial_value: init }).unwrap();
+	let mut clock = clock_tps.map(|tps| mgr.add_clock(ClockSpeed::TicksPerSecond(tps)).unwrap());
+	let cid = clock.as_ref().map(|c| c.id());
+	let log: Arc<Mutex<Vec<TwRec>>> = Arc::default();
+	let mut tb = TrackBuilder::new();
+	tb.add_built_effect(Box::new(TwProbe { watch: tw.id(), clock: cid, log: log.clone() }));
+	let _track = mgr.add_sub_track(tb).unwrap();
+	let mut ops = vec![];
+	let (mut current, mut previous) = (init, init);
+	for p in plan {
+		match p {
+			TwPlan::Set(t, x) => {
+				let target = match t {
+					TwTarget::Val(v) => *v,
+					TwTarget::Current => current,
+					TwTarget::Previous => previous,
+					TwTarget::Initial => init,
+				};
+				tw.set(target, to_xtween(x, cid));
+				previous = target;
+				ops.push(TwOp::Set { target, tw: *x });
+			}
+			TwPlan::Ticking(b) => {
+				if let Some(c) = &mut clock {
+					if *b {
+						c.start()
+					} else {
+						c.pause()
+					}
+					ops.push(TwOp::Ticking(*b));
+				}
+			}
+			TwPlan::Cb(frames) => {
+				let _ = mgr.backend_mut().callback(*frames, 2);
+				if let Some(TwRec { value: Some(v), .. }) = log.lock().unwrap().last() {
+					current = *v;
+				}
+				ops.push(TwOp::Cb { frames: *frames });
+			}
+		}
+	}
+	let recs = log.lock().unwrap().clone();
+	(TwScen { sr, ibs, init, clock_tps, ops }, recs)
+}
+fn apply_easing(e: Easing, x: f64) -> f64 {
+	// Easing::apply is crate-private; Mapping::map over the identity ranges exposes it exactly for x in [0,1]
+	Mapping { input_range: (0.0, 1.0), output_range: (0.0f64, 1.0f64), easing: e }.map(x)
+}
+/// Rust mirror of `tweener_command_law` / `tweener_set_supersedes` / `tweener_pending_holds` /
+/// `tweener_finish_exact`: from the callback that reads a `set(v, tw)` the value is what it was until the
+/// start time has come, then v0 + (v - v0) * ease(time / duration) with time accumulated per chunk, then
+/// exactly v, held until the next command is read -- bit for bit, whatever was going on before.
+fn check_tw(sc: &TwScen, recs: &[TwRec]) -> (Vec<String>, Vec<(f64, f64, f64)>) {
+	struct Run {
+		v0: f64,
+		target: f64,
+		tw: XTw,
+		time: f64,
+		remaining: Duration,
+		no: usize,
+		at_cb: usize,
+	}
+	let dt = 1.0 / sc.sr as f64;
+	let mut fails = vec![];
+	let mut pow_tab = vec![];
+	let mut value = sc.init;
+	let mut cur: Option<Run> = None;
+	let mut last_done: Option<(usize, usize, f64)> = None;
+	let mut pending: Option<(f64, XTw, usize)> = None;
+	let mut pend_tick: Option<bool> = None;
+	let mut ticking = false;
+	let mut ck: (u64, f64) = (0, 0.0);
+	let (mut pos, mut nset, mut ncb, mut nchunk) = (0usize, 0usize, 0usize, 0usize);
+	for op in &sc.ops {
+		match op {
+			TwOp::Set { target, tw } => {
+				nset += 1;
+				pending = Some((*target, *tw, nset));
+			}
+			TwOp::Ticking(b) => pend_tick = Some(*b),
+			TwOp::Cb { frames } => {
+				if let Some(b) = pend_tick.take() {
+					ticking = b;
+				}
+				if let Some((target, tw, no)) = pending.take() {
+					let remaining = match tw.st {
+						XSt::Delay(ns) => Duration::from_nanos(ns),
+						_ => Duration::ZERO,
+					};
+					cur = Some(Run { v0: value, target, tw, time: 0.0, remaining, no, at_cb: ncb });
+				}
+				for len in chunk_lens(sc.ibs, *frames) {
+					let dtc = dt * len as f64;
+					let Some(rec) = recs.get(pos) else {
+						fails.push(format!("callback {ncb}: the probe was not processed in every chunk ({} records for at least {} chunks)", recs.len(), pos + 1));
+						return (fails, pow_tab);
+					};
+					pos += 1;
+					if rec.len != len {
+						fails.push(format!("callback {ncb}: chunk of {} frames where {len} were expected", rec.len));
+						return (fails, pow_tab);
+					}
+					let mut phase = "idle: holds".to_string();
+					if let Some(r) = &mut cur {
+						let started = match r.tw.st {
+							XSt::Imm => true,
+							XSt::Delay(_) => {
+								if r.remaining.is_zero() {
+									true
+								} else {
+									r.remaining = r.remaining.saturating_sub(Duration::from_secs_f64(dtc));
+									false
+								}
+							}
+							XSt::Clock { ticks, frac } => ticking && (ck.0 > ticks || (ck.0 == ticks && ck.1 >= frac)),
+						};
+						phase = format!("command {} (read in callback {}): set({:?}, {:?}) from {:?}; ", r.no, r.at_cb, r.target, r.tw, r.v0);
+						if started {
+							r.time += dtc;
+							let d = Duration::from_nanos(r.tw.dur_ns).as_secs_f64();
+							if r.time >= d {
+								value = r.target;
+								phase += &format!("finished (time {:?} >= {:?}): exactly the target", r.time, d);
+								last_done = Some((r.no, r.at_cb, r.target));
+								cur = None;
+							} else {
+								let x = r.time / d;
+								pow_tab.extend(easing_oracle(r.tw.e, x));
+								value = r.v0 + (r.target - r.v0) * apply_easing(r.tw.e, x);
+								phase += &format!("running, time {:?} of {:?}", r.time, d);
+							}
+						} else {
+							phase += "pending (start time not reached): holds the value it had";
+						}
+					} else if let Some((no, at, t)) = last_done {
+						phase = format!("after command {no} (read in callback {at}) finished: holds its target {t:?}");
+					}
+					match rec.value {
+						Some(x) if obs64(x) == obs64(value) => {}
+						Some(x) => {
+							fails.push(format!("tweener command history: chunk {nchunk} (callback {ncb}): the tweener is at {x:?}, the tween law gives {value:?} [{phase}]"));
+							return (fails, pow_tab);
+						}
+						None => {
+							fails.push(format!("chunk {nchunk}: the tweener does not resolve in the mixer"));
+							return (fails, pow_tab);
+						}
+					}
+					if let Some((_, k, f)) = rec.clock {
+						ck = (k, f);
+					}
+					nchunk += 1;
+				}
+				ncb += 1;
+			}
+		}
+	}
+	if pos != recs.len() {
+		fails.push(format!("the probe was processed {} times, the history explains {pos}", recs.len()));
+	}
+	(fails, pow_tab)
+}
+fn g_xtw(t: &XTw) -> String {
+	let (ek, ep) = easing_code(t.e);
+	let st = match t.st {
+		XSt::Imm => "RSImm".to_string(),
+		XSt::Delay(ns) => format!("(RSDelay {ns})"),
+		XSt::Clock { ticks, frac } => format!("(RSClock 0 {} {})", ticks, f64_bits_z(frac)),
+	};
+	format!("(RXTween {} {} {} {})", st, t.dur_ns, ek, z(ep))
+}
+fn g_pow_tab(pow_tab: &[(f64, f64, f64)]) -> String {
+	pow_tab.iter().map(|(a, b, c)| format!("({}, {}, {})", f64_bits_z(*a), f64_bits_z(*b), f64_bits_z(*c))).collect::<Vec<_>>().join("; ")
+}
+fn g_tw_case(sc: &TwScen, pow_tab: &[(f64, f64, f64)]) -> String {
+	let ops: Vec<String> = sc
+		.ops
+		.iter()
+		.map(|o| match o {
+			TwOp::Set { target, tw } => format!("RTwSet {} {}", f64_bits_z(*target), g_xtw(tw)),
+			TwOp::Ticking(b) => format!("RTwTicking {}", *b as u8),
+			TwOp::Cb { frames } => format!("RTwCb {frames}"),
+		})
+		.collect();
+	let clock = match sc.clock_tps {
+		Some(t) => format!("(Some {})", f64_bits_z(t)),
+		None => "None".to_string(),
+	};
+	format!("CTw {} {} {} {} [{}] [{}]", sc.sr, sc.ibs, f64_bits_z(sc.init), clock, ops.join("; "), g_pow_tab(pow_tab))
+}
+fn run_tw_one(s: &mut Session, kind: &str, sr: u32, ibs: usize, init: f64, clock_tps: Option<f64>, plan: &[TwPlan]) {
+	let (sc, recs) = match catch(|| exec_tw(sr, ibs, init, clock_tps, plan)) {
+		Outcome::Ok(x) => x,
+		_ => {
+			s.fail(format!("sr {sr} ibs {ibs} init {init:?} clock {clock_tps:?} plan {plan:?}"), format!("panicked: {}", last_panic()), None);
+			return;
+		}
+	};
+	let (fails, pow_tab) = check_tw(&sc, &recs);
+	for f in fails {
+		s.fail(format!("{sc:?}"), f, None);
+	}
+	let obs: Vec<i128> = recs.iter().map(|r| r.value.map(obs64).unwrap_or(-2)).collect();
+	let key = if obs.is_empty() { None } else { Some(format!("{:?}", sc)) };
+	s.case(kind, g_tw_case(&sc, &pow_tab), &obs, key);
+	for p in plan {
+		match p {
+			TwPlan::Set(TwTarget::Current, _) => s.count("tw_set_to_current_value"),
+			TwPlan::Set(TwTarget::Previous, _) => s.count("tw_set_to_previous_target"),
+			TwPlan::Set(TwTarget::Initial, _) => s.count("tw_set_to_initial_value"),
+			TwPlan::Set(TwTarget::Val(_), _) => s.count("tw_set_to_new_value"),
+			_ => {}
+		}
+		if let TwPlan::Set(_, x) = p {
+			match x.st {
+				XSt::Imm => s.count("tw_start_immediate"),
+				XSt::Delay(_) => s.count("tw_start_delayed"),
+				XSt::Clock { .. } => s.count("tw_start_clock_time"),
+			}
+		}
+	}
+}
+fn run_tw(s: &mut Session, rng: &mut Rng, n_random: u64) {
+	// ---- the witness of `set_to_current_value_dropped_refuted` (and of the seeded change's demonstration) ----
+	{
+		let later = XTw { st: XSt::Delay(1_000_000_000), dur_ns: 500_000_000, e: Easing::Linear };
+		let now0 = XTw { st: XSt::Imm, dur_ns: 0, e: Easing::Linear };
+		let mut plan = vec![TwPlan::Cb(128), TwPlan::Cb(128), TwPlan::Set(TwTarget::Val(1.0), later)];
+		plan.extend((0..3).map(|_| TwPlan::Cb(128)));
+		plan.push(TwPlan::Set(TwTarget::Val(0.0), now0));
+		plan.extend((0..30).map(|_| TwPlan::Cb(128)));
+		plan.push(TwPlan::Set(TwTarget::Val(1.0), XTw { st: XSt::Imm, dur_ns: 500_000_000, e: Easing::Linear }));
+		plan.extend((0..8).map(|_| TwPlan::Cb(128)));
+		run_tw_one(s, "tw_fixed", 1280, 128, 0.0, None, &plan);
+	}
+	// ---- exhaustive small enumeration: first command x when the second arrives x its target x its tween ----
+	let mut k = 0u64;
+	for first_st in 0..3 {
+		for first_dur in [0.0f64, 3.0] {
+			for after in [1usize, 2, 4, 7] {
+				for tkind in 0..4 {
+					for second in 0..4 {
+						k += 1;
+						let (sr, ibs) = *rng.pick(&[(1000u32, 4usize), (48000, 128), (8, 2), (44100, 64), (1024, 16)]);
+						let cs = ibs as f64 / sr as f64;
+						let cns = cs * 1e9;
+						let per_chunk = *rng.pick(&[0.5f64, 1.0, 0.75, 1.25]);
+						let tps = per_chunk / cs;
+						let init = *rng.pick(&[0.0f64, 0.25, -1.5, 3.0]);
+						let a = init + *rng.pick(&[1.0f64, -2.0, 0.3]);
+						let st1 = match first_st {
+							0 => XSt::Imm,
+							1 => XSt::Delay((2.5 * cns) as u64),
+							_ => XSt::Clock { ticks: 2, frac: *rng.pick(&[0.0, 0.5]) },
+						};
+						let e1 = *rng.pick(&[Easing::Linear, Easing::InPowi(2), Easing::OutPowi(3), Easing::InOutPowi(2), Easing::OutPowf(1.5)]);
+						let tw1 = XTw { st: st1, dur_ns: (first_dur * cns) as u64, e: e1 };
+						let t2 = match tkind {
+							0 => TwTarget::Current,
+							1 => TwTarget::Previous,
+							2 => TwTarget::Initial,
+							_ => TwTarget::Val(init - 0.75),
+						};
+						let tw2 = match second {
+							0 => XTw { st: XSt::Imm, dur_ns: 0, e: Easing::Linear },
+							1 => XTw { st: XSt::Imm, dur_ns: (2.0 * cns) as u64, e: Easing::Linear },
+							2 => XTw { st: XSt::Delay((1.5 * cns) as u64), dur_ns: (2.0 * cns) as u64, e: Easing::InPowi(2) },
+							_ => XTw { st: XSt::Clock { ticks: 6, frac: 0.25 }, dur_ns: (2.0 * cns) as u64, e: Easing::Linear },
+						};
+						let mut plan = vec![TwPlan::Ticking(true), TwPlan::Cb(ibs), TwPlan::Set(TwTarget::Val(a), tw1)];
+						plan.extend((0..after).map(|_| TwPlan::Cb(ibs)));
+						if k % 3 == 0 {
+							// an overwritten command first: only the last one before the callback counts
+							plan.push(TwPlan::Set(TwTarget::Val(a + 5.0), XTw { st: XSt::Imm, dur_ns: 0, e: Easing::Linear }));
+						}
+						plan.push(TwPlan::Set(t2, tw2));
+						plan.extend((0..4).map(|_| TwPlan::Cb(ibs)));
+						plan.push(TwPlan::Cb(ibs * 3 + ibs / 2));
+						plan.extend((0..3).map(|_| TwPlan::Cb(ibs)));
+						run_tw_one(s, "tw_enumerated", sr, ibs, init, Some(tps), &plan);
+					}
+				}
+			}
+		}
+	}
+	// ---- random histories ----
+	for _ in 0..n_random {
+		let (sr, ibs) = *rng.pick(&[(1000u32, 4usize), (48000, 128), (8, 2), (44100, 64), (1024, 16), (22050, 3), (7, 1)]);
+		let cs = ibs as f64 / sr as f64;
+		let cns = cs * 1e9;
+		let tps = (0.3 + rng.unit_f64()) / cs;
+		let init = (rng.range(-16, 16) as f64) / 4.0;
+		let mut plan = vec![];
+		let mut ticking = false;
+		let mut chunks = 0usize;
+		let steps = rng.range(3, 7);
+		for _ in 0..steps {
+			if rng.chance(1, 3) {
+				ticking = !ticking || rng.chance(1, 2);
+				plan.push(TwPlan::Ticking(ticking));
+			}
+			for _ in 0..rng.below(3) {
+				let target = match rng.below(6) {
+					0 | 1 => TwTarget::Current,
+					2 => TwTarget::Previous,
+					3 => TwTarget::Initial,
+					_ => TwTarget::Val((rng.range(-16, 16) as f64) / 4.0 + if rng.chance(1, 2) { 0.0 } else { rng.unit_f64() }),
+				};
+				let st = match rng.below(5) {
+					0 | 1 => XSt::Imm,
+					2 => XSt::Delay((rng.unit_f64() * 4.0 * cns) as u64),
+					3 => XSt::Delay((*rng.pick(&[0.0f64, 1.0, 2.0, 0.5]) * cns).round() as u64),
+					_ => XSt::Clock { ticks: rng.below(8), frac: *rng.pick(&[0.0, 0.5, 0.25, 0.999]) },
+				};
+				let dur_ns = match rng.below(4) {
+					0 => 0,
+					1 => (*rng.pick(&[1.0f64, 2.0, 3.0]) * cns).round() as u64,
+					_ => (rng.unit_f64() * 5.0 * cns) as u64,
+				};
+				let e = match rng.below(6) {
+					0 | 1 => Easing::Linear,
+					2 => Easing::InPowi(rng.range(1, 4) as i32),
+					3 => Easing::OutPowi(rng.range(1, 4) as i32),
+					4 => Easing::InOutPowi(rng.range(1, 4) as i32),
+					_ => Easing::InOutPowf(*rng.pick(&[0.5, 1.5, 2.0])),
+				};
+				plan.push(TwPlan::Set(target, XTw { st, dur_ns, e }));
+			}
+			let frames = match rng.below(4) {
+				0 => ibs,
+				1 => ibs * rng.range(1, 3) as usize,
+				_ => rng.range(1, ibs as i64 * 3) as usize,
+			};
+			chunks += chunk_lens(ibs, frames).len();
+			plan.push(TwPlan::Cb(frames));
+			if chunks > 16 {
+				break;
+			}
+		}
+		run_tw_one(s, "tw_random", sr, ibs, init, Some(tps), &plan);
+	}
+}
+
+// ==========================================================================================
+// (B) listeners are readers of modulators and clocks; a spatial track reads the listener in the same chunk
+// ==========================================================================================
+#[derive(Clone, Debug)]
+enum VVal {
+	Fixed([f32; 3]),
+	Mod { id: usize, lo: f64, hi: f64, a: [f32; 3], b: [f32; 3], e: Easing },
+}
+#[derive(Clone, Debug)]
+enum LOp {
+	AddTweener { init: f64 },
+	AddLfo { w: Wave, f: f64, a: f64, o: f64, phase: f64 },
+	SetTweener { id: usize, target: f64, tw: Tw },
+	/// fixed speed in ticks per second; started at once
+	AddClock { tps: f64 },
+	Ticking { cid: usize, on: bool },
+	AddListener { pos: VVal },
+	SetListener { lid: usize, target: VVal, tw: XTw, cid: usize },
+	/// spatial track at a fixed position whose probe effect watches modulator `watch` and clock `cid`
+	AddSpat { lid: usize, e: [f32; 3], watch: usize, cid: usize },
+	Cb { frames: usize },
+}
+#[derive(Clone, Debug)]
+struct LScen {
+	sr: u32,
+	ibs: usize,
+	ops: Vec<LOp>,
+}
+#[derive(Clone, Debug)]
+struct SpRec {
+	sid: usize,
+	len: usize,
+	modv: Option<f64>,
+	clock: Option<(bool, u64, f64)>,
+	pos: Option<([f32; 3], [f32; 3])>,
+	dist: Option<f32>,
+}
+struct SpProbe {
+	sid: usize,
+	watch: Option<ModulatorId>,
+	clock: Option<ClockId>,
+	log: Arc<Mutex<Vec<SpRec>>>,
+}
+impl Effect for SpProbe {
+	fn process(&mut self, input: &mut [Frame], _dt: f64, info: &Info) {
+		let clock = self.clock.and_then(|c| info.clock_info(c)).map(|c| (c.ticking, c.time.ticks, c.time.fraction));
+		let pos = info.listener_info().map(|l| ([l.position.x, l.position.y, l.position.z], [l.previous_position.x, l.previous_position.y, l.previous_position.z]));
+		self.log.lock().unwrap().push(SpRec { sid: self.sid, len: input.len(), modv: self.watch.and_then(|w| info.modulator_value(w)), clock, pos, dist: info.listener_distance() });
+	}
+}
+fn mv3(a: [f32; 3]) -> mint::Vector3<f32> {
+	mint::Vector3 { x: a[0], y: a[1], z: a[2] }
+}
+fn gv3(a: [f32; 3]) -> glam::Vec3 {
+	glam::Vec3::new(a[0], a[1], a[2])
+}
+fn av3(v: glam::Vec3) -> [f32; 3] {
+	[v.x, v.y, v.z]
+}
+fn to_vvalue(v: &VVal, ids: &[ModulatorId]) -> Value<mint::Vector3<f32>> {
+	match v {
+		VVal::Fixed(p) => Value::Fixed(mv3(*p)),
+		VVal::Mod { id, lo, hi, a, b, e } => Value::FromModulator { id: ids[*id], mapping: Mapping { input_range: (*lo, *hi), output_range: (mv3(*a), mv3(*b)), easing: *e } },
+	}
+}
+fn exec_lis(sc: &LScen) -> Vec<SpRec> {
+	let caps = Capacities { sub_track_capacity: 16, send_track_capacity: 4, clock_capacity: 8, modulator_capacity: 16, listener_capacity: 8 };
+	let mut mgr = manager(sc.sr, sc.ibs, caps, MainTrackBuilder::new());
+	let log: Arc<Mutex<Vec<SpRec>>> = Arc::default();
+	let mut ids: Vec<ModulatorId> = vec![];
+	let mut tweeners: BTreeMap<usize, TweenerHandle> = BTreeMap::new();
+	let mut lfos: Vec<LfoHandle> = vec![];
+	let mut clocks: Vec<ClockHandle> = vec![];
+	let mut listeners: Vec<kira::listener::ListenerHandle> = vec![];
+	let mut tracks: Vec<kira::track::SpatialTrackHandle> = vec![];
+	for op in &sc.ops {
+		match op {
+			LOp::AddTweener { init } => {
+				let h = mgr.add_modulator(TweenerBuilder { initial_value: *init }).unwrap();
+				ids.push(h.id());
+				tweeners.insert(ids.len() - 1, h);
+			}
+			LOp::AddLfo { w, f, a, o, phase } => {
+				let h = mgr.add_modulator(LfoBuilder::new().waveform(to_wave(*w)).frequency(*f).amplitude(*a).offset(*o).starting_phase(*phase)).unwrap();
+				ids.push(h.id());
+				lfos.push(h);
+			}
+			LOp::SetTweener { id, target, tw } => {
+				if let Some(h) = tweeners.get_mut(id) {
+					h.set(*target, to_tween(tw));
+				}
+			}
+			LOp::AddClock { tps } => {
+				let mut h = mgr.add_clock(ClockSpeed::TicksPerSecond(*tps)).unwrap();
+				h.start();
+				clocks.push(h);
+			}
+			LOp::Ticking { cid, on } => {
+				if *on {
+					clocks[*cid].start()
+				} else {
+					clocks[*cid].pause()
+				}
+			}
+			LOp::AddListener { pos } => {
+				let q = mint::Quaternion { v: mint::Vector3 { x: 0.0, y: 0.0, z: 0.0 }, s: 1.0 };
+				listeners.push(mgr.add_listener(to_vvalue(pos, &ids), q).unwrap());
+			}
+			LOp::SetListener { lid, target, tw, cid } => {
+				let c = clocks.get(*cid).map(|c| c.id());
+				listeners[*lid].set_position(to_vvalue(target, &ids), to_xtween(tw, c));
+			}
+			LOp::AddSpat { lid, e, watch, cid } => {
+				let sid = tracks.len();
+				let mut b = kira::track::SpatialTrackBuilder::new();
+				b.add_built_effect(Box::new(SpProbe { sid, watch: ids.get(*watch).copied(), clock: clocks.get(*cid).map(|c| c.id()), log: log.clone() }));
+				tracks.push(mgr.add_spatial_sub_track(listeners[*lid].id(), mv3(*e), b).unwrap());
+			}
+			LOp::Cb { frames } => {
+				let _ = mgr.backend_mut().callback(*frames, 2);
+			}
+		}
+	}
+	let l = log.lock().unwrap().clone();
+	drop(lfos);
+	l
+}
+/// Rust mirror of `listener_linked_same_chunk`, `listener_clock_same_chunk`, `spatial_distance_same_chunk`
+fn check_lis(sc: &LScen, recs: &[SpRec]) -> (Vec<String>, Vec<(f64, f64)>, Vec<(f64, f64, f64)>, bool) {
+	#[derive(Clone)]
+	enum LState {
+		Idle(VVal),
+		Tween { start: glam::Vec3, target: VVal, time: f64, tw: XTw, remaining: Duration, cid: usize },
+	}
+	struct ML {
+		state: LState,
+		raw: glam::Vec3,
+		prev: glam::Vec3,
+		stagnant: bool,
+		updates: usize,
+		pending: Option<(VVal, XTw, usize)>,
+	}
+	struct MS {
+		lid: usize,
+		e: glam::Vec3,
+		watch: usize,
+		cid: usize,
+	}
+	let dt = 1.0 / sc.sr as f64;
+	let mut fails: Vec<String> = vec![];
+	let sin_tab: Vec<(f64, f64)> = vec![];
+	let mut pow_tab: Vec<(f64, f64, f64)> = vec![];
+	let modelable = true;
+	let mut ls: Vec<ML> = vec![];
+	let mut sp: Vec<MS> = vec![];
+	let mut pos = 0usize;
+	let mut nchunk = 0usize;
+	let vmap = |id_val: Option<f64>, lo: f64, hi: f64, a: [f32; 3], b: [f32; 3], e: Easing| -> Option<glam::Vec3> {
+		id_val.map(|x| Mapping { input_range: (lo, hi), output_range: (gv3(a), gv3(b)), easing: e }.map(x))
+	};
+	for op in &sc.ops {
+		match op {
+			LOp::AddListener { pos: p } => {
+				let raw = match p {
+					VVal::Fixed(x) => gv3(*x),
+					_ => glam::Vec3::ZERO,
+				};
+				ls.push(ML { state: LState::Idle(p.clone()), raw, prev: raw, stagnant: matches!(p, VVal::Fixed(_)), updates: 0, pending: None });
+			}
+			LOp::SetListener { lid, target, tw, cid } => ls[*lid].pending = Some((target.clone(), *tw, *cid)),
+			LOp::AddSpat { lid, e, watch, cid } => sp.push(MS { lid: *lid, e: gv3(*e), watch: *watch, cid: *cid }),
+			LOp::Cb { frames } => {
+				for l in ls.iter_mut() {
+					if let Some((target, tw, cid)) = l.pending.take() {
+						let remaining = match tw.st {
+							XSt::Delay(ns) => Duration::from_nanos(ns),
+							_ => Duration::ZERO,
+						};
+						l.state = LState::Tween { start: l.raw, target, time: 0.0, tw, remaining, cid };
+						l.stagnant = false;
+					}
+				}
+				for len in chunk_lens(sc.ibs, *frames) {
+					let dtc = dt * len as f64;
+					// the records of this chunk, one per spatial track
+					let mut by_sid: BTreeMap<usize, SpRec> = BTreeMap::new();
+					for _ in 0..sp.len() {
+						match recs.get(pos) {
+							Some(r) => {
+								if r.len != len {
+									fails.push(format!("chunk {nchunk}: spatial probe {} processed {} frames in a chunk of {len}", r.sid, r.len));
+									return (fails, sin_tab, pow_tab, modelable);
+								}
+								if by_sid.insert(r.sid, r.clone()).is_some() {
+									fails.push(format!("chunk {nchunk}: spatial probe {} processed twice", r.sid));
+									return (fails, sin_tab, pow_tab, modelable);
+								}
+								pos += 1;
+							}
+							None => {
+								fails.push(format!("chunk {nchunk}: not every spatial probe was processed"));
+								return (fails, sin_tab, pow_tab, modelable);
+							}
+						}
+					}
+					// what this chunk's modulator / clock updates produced, as read in the mixer of THIS chunk
+					let mod_now = |m: usize| -> Option<Option<f64>> { sp.iter().enumerate().find(|(_, s)| s.watch == m).and_then(|(i, _)| by_sid.get(&i)).map(|r| r.modv) };
+					let clock_now = |c: usize| -> Option<Option<(bool, u64, f64)>> { sp.iter().enumerate().find(|(_, s)| s.cid == c).and_then(|(i, _)| by_sid.get(&i)).map(|r| r.clock) };
+					// listeners: updated after the modulators and after the clocks of this chunk
+					for (li, l) in ls.iter_mut().enumerate() {
+						l.prev = l.raw;
+						l.updates += 1;
+						if l.stagnant {
+							continue;
+						}
+						let mut unknown = false;
+						if let LState::Tween { target, time, tw, remaining, cid, .. } = &mut l.state {
+							let started = match tw.st {
+								XSt::Imm => true,
+								XSt::Delay(_) => {
+									if remaining.is_zero() {
+										true
+									} else {
+										*remaining = remaining.saturating_sub(Duration::from_secs_f64(dtc));
+										false
+									}
+								}
+								XSt::Clock { ticks, frac } => match clock_now(*cid) {
+									Some(Some((t, k, f))) => t && (k > ticks || (k == ticks && f >= frac)),
+									Some(None) => false,
+									None => {
+										unknown = true;
+										false
+									}
+								},
+							};
+							if started {
+								*time += dtc;
+								if *time >= Duration::from_nanos(tw.dur_ns).as_secs_f64() {
+									let t = target.clone();
+									if matches!(t, VVal::Fixed(_)) {
+										l.stagnant = true;
+									}
+									l.state = LState::Idle(t);
+								}
+							}
+						}
+						if unknown {
+							fails.push(format!("listener {li}: no probe watches its clock (generator error)"));
+							return (fails, sin_tab, pow_tab, modelable);
+						}
+						let raw_of = |v: &VVal, pow_tab: &mut Vec<(f64, f64, f64)>| -> Option<Option<glam::Vec3>> {
+							match v {
+								VVal::Fixed(x) => Some(Some(gv3(*x))),
+								VVal::Mod { id, lo, hi, a, b, e } => mod_now(*id).map(|mv| {
+									if let (Some(x), true) = (mv, is_powf(*e)) {
+										pow_tab.extend(easing_oracle(*e, ((x - lo) / (hi - lo)).clamp(0.0, 1.0)));
+									}
+									vmap(mv, *lo, *hi, *a, *b, *e)
+								}),
+							}
+						};
+						let new_raw = match &l.state {
+							LState::Idle(v) => raw_of(v, &mut pow_tab),
+							LState::Tween { start, target, time, tw, .. } => {
+								if tw.dur_ns == 0 {
+									Some(None)
+								} else {
+									let x = *time / Duration::from_nanos(tw.dur_ns).as_secs_f64();
+									pow_tab.extend(easing_oracle(tw.e, x));
+									let amount = apply_easing(tw.e, x);
+									raw_of(target, &mut pow_tab).map(|t| t.map(|t| <glam::Vec3 as kira::Tweenable>::interpolate(*start, t, amount)))
+								}
+							}
+						};
+						match new_raw {
+							Some(Some(v)) => l.raw = v,
+							Some(None) => {}
+							None => {
+								fails.push(format!("listener {li}: no probe watches its modulator (generator error)"));
+								return (fails, sin_tab, pow_tab, modelable);
+							}
+						}
+					}
+					// the mixer: every spatial track reads the listener of THIS chunk
+					for (si, sdef) in sp.iter().enumerate() {
+						let r = &by_sid[&si];
+						let l = &ls[sdef.lid];
+						let describe_l = |l: &ML| match &l.state {
+							LState::Idle(VVal::Mod { id, .. }) => format!("position linked to modulator {id} whose value in this chunk is {:?}", mod_now(*id).flatten()),
+							LState::Idle(VVal::Fixed(_)) => "position fixed".to_string(),
+							LState::Tween { tw, time, cid, .. } => format!("position in a transition {tw:?} (time {time:?}); clock {cid} in this chunk: {:?}", clock_now(*cid).flatten()),
+						};
+						if l.updates == 0 {
+							continue;
+						}
+						match r.pos {
+							Some((p, pp)) => {
+								let (want, wantp) = (av3(l.raw), av3(l.prev));
+								let same = |a: [f32; 3], b: [f32; 3]| (0..3).all(|i| obs32(a[i]) == obs32(b[i]));
+								if !same(p, want) {
+									fails.push(format!("same-chunk (listener): chunk {nchunk}: spatial track {si} reads listener {} at {p:?}; updated after this chunk's modulators and clocks it is at {want:?} [{}]", sdef.lid, describe_l(l)));
+									return (fails, sin_tab, pow_tab, modelable);
+								}
+								if !same(pp, wantp) {
+									fails.push(format!("chunk {nchunk}: spatial track {si} reads previous position {pp:?} of listener {}, expected {wantp:?}", sdef.lid));
+									return (fails, sin_tab, pow_tab, modelable);
+								}
+								let wd = gv3(p).distance(sdef.e);
+								match r.dist {
+									Some(d) if obs32(d) == obs32(wd) => {}
+									other => {
+										fails.push(format!("chunk {nchunk}: spatial track {si}: listener_distance() = {other:?}, listener at {p:?}, emitter at {:?}: {wd:?}", sdef.e));
+										return (fails, sin_tab, pow_tab, modelable);
+									}
+								}
+								let wl = l.raw.distance(sdef.e);
+								if r.dist.map(obs32) != Some(obs32(wl)) {
+									fails.push(format!("same-chunk (distance): chunk {nchunk}: spatial track {si} hears distance {:?}; for the modulator value / clock time of this chunk it is {wl:?} [{}]", r.dist, describe_l(l)));
+									return (fails, sin_tab, pow_tab, modelable);
+								}
+							}
+							None => {
+								fails.push(format!("chunk {nchunk}: spatial track {si} has no listener info although listener {} exists", sdef.lid));
+								return (fails, sin_tab, pow_tab, modelable);
+							}
+						}
+					}
+					nchunk += 1;
+				}
+			}
+			_ => {}
+		}
+	}
+	if pos != recs.len() {
+		fails.push(format!("{} spatial probe records, the history explains {pos}", recs.len()));
+	}
+	(fails, sin_tab, pow_tab, modelable)
+}
+fn f32z(x: f32) -> String {
+	f32_bits_z(x)
+}
+fn g_vval(v: &VVal) -> String {
+	match v {
+		VVal::Fixed(p) => format!("(RVFixed {} {} {})", f32z(p[0]), f32z(p[1]), f32z(p[2])),
+		VVal::Mod { id, lo, hi, a, b, e } => {
+			let (ek, ep) = easing_code(*e);
+			format!("(RVMod {} {} {} {} {} {} {} {} {} {} {})", id, f64_bits_z(*lo), f64_bits_z(*hi), f32z(a[0]), f32z(a[1]), f32z(a[2]), f32z(b[0]), f32z(b[1]), f32z(b[2]), ek, z(ep))
+		}
+	}
+}
+fn g_lis_case(sc: &LScen, sin_tab: &[(f64, f64)], pow_tab: &[(f64, f64, f64)]) -> String {
+	let mut ops = vec![];
+	let (mut nid, mut ncid, mut nlid, mut nsid) = (0usize, 0usize, 0usize, 0usize);
+	for op in &sc.ops {
+		ops.push(match op {
+			LOp::AddTweener { init } => {
+				nid += 1;
+				format!("RXBase (RAddTweener {} {})", nid - 1, f64_bits_z(*init))
+			}
+			LOp::AddLfo { w, f, a, o, phase } => {
+				nid += 1;
+				format!("RXBase (RAddLfo {} {} {} {} {} {})", nid - 1, g_wave(*w), g_val(&Val::Fixed(*f)), g_val(&Val::Fixed(*a)), g_val(&Val::Fixed(*o)), f64_bits_z(*phase))
+			}
+			LOp::SetTweener { id, target, tw } => format!("RXBase (RSetTweener {} {} {})", id, f64_bits_z(*target), g_tw(tw)),
+			LOp::AddClock { tps } => {
+				ncid += 1;
+				format!("RXBase (RAddClock {} {})", ncid - 1, g_val(&Val::Fixed(*tps)))
+			}
+			LOp::Ticking { cid, on } => format!("RXTicking {} {}", cid, *on as u8),
+			LOp::AddListener { pos } => {
+				nlid += 1;
+				format!("RXAddListener {} {}", nlid - 1, g_vval(pos))
+			}
+			LOp::SetListener { lid, target, tw, cid } => {
+				let t = match tw.st {
+					XSt::Clock { ticks, frac } => {
+						let (ek, ep) = easing_code(tw.e);
+						format!("(RXTween (RSClock {} {} {}) {} {} {})", cid, ticks, f64_bits_z(frac), tw.dur_ns, ek, z(ep))
+					}
+					_ => g_xtw(tw),
+				};
+				format!("RXSetListener {} {} {}", lid, g_vval(target), t)
+			}
+			LOp::AddSpat { lid, e, watch, cid } => {
+				nsid += 1;
+				format!("RXAddSpat {} {} {} {} {} {} {}", nsid - 1, lid, f32z(e[0]), f32z(e[1]), f32z(e[2]), watch, cid)
+			}
+			LOp::Cb { frames } => format!("RXCb {frames}"),
+		});
+	}
+	let st = sin_tab.iter().map(|(a, b)| format!("({}, {})", f64_bits_z(*a), f64_bits_z(*b))).collect::<Vec<_>>().join("; ");
+	format!("CLis {} {} [{}] [{}] [{}]", sc.sr, sc.ibs, ops.join("; "), st, g_pow_tab(pow_tab))
+}
+fn lis_observable(recs: &[SpRec]) -> Vec<i128> {
+	let mut out = vec![];
+	// per spatial track in creation order (the mixer's iteration order over its sub-tracks is the arena's)
+	let mut order: Vec<&SpRec> = recs.iter().collect();
+	order.sort_by_key(|r| r.sid);
+	for r in order {
+		out.push(r.sid as i128);
+		out.push(r.len as i128);
+		out.extend(enc_opt(r.modv));
+		match r.clock {
+			Some((t, k, f)) => out.extend([1, t as i128, k as i128, obs64(f)]),
+			None => out.extend([0, 0, 0, 0]),
+		}
+		match r.pos {
+			Some((p, pp)) => {
+				out.push(1);
+				out.extend(p.iter().map(|x| obs32(*x)));
+				out.extend(pp.iter().map(|x| obs32(*x)));
+			}
+			None => out.extend([0; 7]),
+		}
+		match r.dist {
+			Some(d) => out.extend([1, obs32(d)]),
+			None => out.extend([0, 0]),
+		}
+	}
+	out
+}
+fn run_lis_one(s: &mut Session, kind: &str, sc: &LScen) {
+	let recs = match catch(|| exec_lis(sc)) {
+		Outcome::Ok(r) => r,
+		_ => {
+			s.fail(format!("{sc:?}"), format!("panicked: {}", last_panic()), None);
+			return;
+		}
+	};
+	let (fails, sin_tab, pow_tab, modelable) = check_lis(sc, &recs);
+	for f in fails {
+		s.fail(format!("{sc:?}"), f, None);
+	}
+	// libm sin for the LFOs the model has to run
+	let mut sin_tab = sin_tab;
+	let mut ok = modelable;
+	{
+		// mirror of the phase of every sine LFO (fixed frequency): per chunk phase += dt*len*f; rem_euclid
+		let dt = 1.0 / sc.sr as f64;
+		let mut lf: Vec<(f64, f64)> = vec![];
+		for op in &sc.ops {
+			match op {
+				LOp::AddLfo { w: Wave::Sine, f, phase, .. } => lf.push((*phase / TAU, *f)),
+				LOp::Cb { frames } => {
+					for len in chunk_lens(sc.ibs, *frames) {
+						for (ph, f) in lf.iter_mut() {
+							*ph += dt * len as f64 * *f;
+							*ph = ph.rem_euclid(1.0);
+							let arg = *ph * TAU;
+							sin_tab.push((arg, arg.sin()));
+						}
+					}
+				}
+				_ => {}
+			}
+		}
+		// a sine LFO added after a callback would start later than this mirror assumes: such histories are not generated
+		let mut seen_cb = false;
+		for op in &sc.ops {
+			match op {
+				LOp::Cb { .. } => seen_cb = true,
+				LOp::AddLfo { w: Wave::Sine, .. } if seen_cb => ok = false,
+				_ => {}
+			}
+		}
+	}
+	if ok {
+		// grouped per spatial track, as `C17.Run.run` does
+		let obs = lis_observable(&recs);
+		let key = if obs.is_empty() { None } else { Some(format!("{sc:?}")) };
+		s.case(kind, g_lis_case(sc, &sin_tab, &pow_tab), &obs, key);
+	} else {
+		s.eval_only(&format!("{kind}_monitor_only"));
+	}
+	for op in &sc.ops {
+		match op {
+			LOp::AddListener { pos: VVal::Mod { .. } } => s.count("lis_position_linked_at_creation"),
+			LOp::SetListener { target: VVal::Mod { .. }, .. } => s.count("lis_position_linked_by_command"),
+			LOp::SetListener { tw: XTw { st: XSt::Clock { .. }, .. }, .. } => s.count("lis_position_tween_at_clock_time"),
+			LOp::SetListener { .. } => s.count("lis_position_tween"),
+			_ => {}
+		}
+	}
+}
+fn run_lis(s: &mut Session, rng: &mut Rng, n_random: u64) {
+	let gen = |rng: &mut Rng, variant: u64| -> LScen {
+		let (sr, ibs) = *rng.pick(&[(1000u32, 4usize), (48000, 128), (8, 2), (44100, 64), (1024, 16), (22050, 3)]);
+		let cs = ibs as f64 / sr as f64;
+		let cns = cs * 1e9;
+		let mut ops = vec![];
+		let v = |rng: &mut Rng| -> [f32; 3] { [rng.range(-40, 40) as f32 / 4.0, rng.range(-40, 40) as f32 / 8.0, rng.range(-40, 40) as f32 / 4.0 + 0.125] };
+		let e = *rng.pick(&[Easing::Linear, Easing::Linear, Easing::InPowi(2), Easing::OutPowi(2), Easing::InOutPowi(3), Easing::InPowf(1.5)]);
+		// modulator 0: a tweener that is moved, or an LFO
+		let lfo = variant % 3 == 1;
+		if lfo {
+			let w = *rng.pick(&[Wave::Triangle, Wave::Saw, Wave::Sine, Wave::Pulse(0.5)]);
+			ops.push(LOp::AddLfo { w, f: *rng.pick(&[0.125, 0.0625, 0.3]) / cs, a: *rng.pick(&[1.0, 0.5, 2.0]), o: *rng.pick(&[0.0, 0.25]), phase: 0.0 });
+		} else {
+			ops.push(LOp::AddTweener { init: *rng.pick(&[0.0, 0.5, -1.0]) });
+		}
+		let tps = *rng.pick(&[0.4, 1.0, 1.7, 0.75]) / cs;
+		ops.push(LOp::AddClock { tps });
+		let (lo, hi) = *rng.pick(&[(-1.0f64, 1.0f64), (0.0, 1.0), (1.0, -1.0), (0.0, 4.0)]);
+		let link = VVal::Mod { id: 0, lo, hi, a: v(rng), b: v(rng), e };
+		let clock_tw = |rng: &mut Rng| XTw { st: XSt::Clock { ticks: rng.range(1, 4) as u64, frac: *rng.pick(&[0.0, 0.5, 0.25]) }, dur_ns: (*rng.pick(&[0.0f64, 2.5, 1.0, 3.0]) * cns) as u64, e: *rng.pick(&[Easing::Linear, Easing::OutPowi(2)]) };
+		match variant % 4 {
+			0 | 1 => {
+				// listener 0 linked at creation; listener 1 fixed, then sent to a fixed place at a clock time
+				ops.push(LOp::AddListener { pos: link.clone() });
+				ops.push(LOp::AddListener { pos: VVal::Fixed(v(rng)) });
+				ops.push(LOp::AddSpat { lid: 0, e: v(rng), watch: 0, cid: 0 });
+				ops.push(LOp::AddSpat { lid: 1, e: v(rng), watch: 0, cid: 0 });
+				let t = clock_tw(rng);
+				ops.push(LOp::SetListener { lid: 1, target: VVal::Fixed(v(rng)), tw: t, cid: 0 });
+			}
+			2 => {
+				// fixed at first, linked later by a command (instant, or over a transition)
+				ops.push(LOp::AddListener { pos: VVal::Fixed(v(rng)) });
+				ops.push(LOp::AddSpat { lid: 0, e: v(rng), watch: 0, cid: 0 });
+				ops.push(LOp::Cb { frames: ibs });
+				let tw = if rng.chance(1, 2) { XTw { st: XSt::Imm, dur_ns: 0, e: Easing::Linear } } else { XTw { st: XSt::Delay((1.5 * cns) as u64), dur_ns: (2.0 * cns) as u64, e: Easing::Linear } };
+				ops.push(LOp::SetListener { lid: 0, target: link.clone(), tw, cid: 0 });
+			}
+			_ => {
+				// a linked listener sent towards ANOTHER link at a clock time
+				ops.push(LOp::AddListener { pos: link.clone() });
+				ops.push(LOp::AddSpat { lid: 0, e: v(rng), watch: 0, cid: 0 });
+				ops.push(LOp::Cb { frames: ibs + 1 });
+				let t = clock_tw(rng);
+				ops.push(LOp::SetListener { lid: 0, target: VVal::Mod { id: 0, lo: hi, hi: lo, a: v(rng), b: v(rng), e: Easing::Linear }, tw: t, cid: 0 });
+			}
+		}
+		if !lfo {
+			let tw = match rng.below(3) {
+				0 => Tw { delay_ns: -1, dur_ns: (5.0 * cns) as u64, e: Easing::Linear },
+				1 => Tw { delay_ns: (1.5 * cns) as i64, dur_ns: (3.0 * cns) as u64, e: Easing::InPowi(2) },
+				_ => Tw { delay_ns: -1, dur_ns: (rng.unit_f64() * 6.0 * cns) as u64, e: Easing::OutPowi(2) },
+			};
+			ops.push(LOp::SetTweener { id: 0, target: *rng.pick(&[1.0, -1.0, 4.0]), tw });
+		}
+		ops.push(LOp::Cb { frames: ibs * 2 });
+		if rng.chance(1, 3) {
+			ops.push(LOp::Ticking { cid: 0, on: false });
+			ops.push(LOp::Cb { frames: ibs });
+			ops.push(LOp::Ticking { cid: 0, on: true });
+		}
+		ops.push(LOp::Cb { frames: ibs * 2 + ibs / 2 });
+		ops.push(LOp::Cb { frames: ibs });
+		if !lfo && rng.chance(1, 2) {
+			ops.push(LOp::SetTweener { id: 0, target: 0.25, tw: Tw { delay_ns: -1, dur_ns: (2.0 * cns) as u64, e: Easing::Linear } });
+		}
+		ops.push(LOp::Cb { frames: ibs * 2 });
+		LScen { sr, ibs, ops }
+	};
+	// ---- the witness of `listeners_first_refuted`: a tweener on its way 0 -> 8 in one second (chunks of 0.25 s),
+	// listener linked with the identity on the x axis, emitter at x = 10; a second listener waits for tick 1 of a
+	// clock at 4 ticks per second ----
+	{
+		let ops = vec![
+			LOp::AddTweener { init: 0.0 },
+			LOp::AddClock { tps: 4.0 },
+			LOp::AddListener { pos: VVal::Mod { id: 0, lo: 0.0, hi: 8.0, a: [0.0, 0.0, 0.0], b: [8.0, 0.0, 0.0], e: Easing::Linear } },
+			LOp::AddListener { pos: VVal::Fixed([0.0, 0.0, 0.0]) },
+			LOp::AddSpat { lid: 0, e: [10.0, 0.0, 0.0], watch: 0, cid: 0 },
+			LOp::AddSpat { lid: 1, e: [10.0, 0.0, 0.0], watch: 0, cid: 0 },
+			LOp::SetTweener { id: 0, target: 8.0, tw: Tw { delay_ns: -1, dur_ns: 1_000_000_000, e: Easing::Linear } },
+			LOp::SetListener { lid: 1, target: VVal::Fixed([6.0, 0.0, 0.0]), tw: XTw { st: XSt::Clock { ticks: 1, frac: 0.0 }, dur_ns: 1_000_000_000, e: Easing::Linear }, cid: 0 },
+			LOp::Cb { frames: 6 },
+		];
+		run_lis_one(s, "lis_fixed", &LScen { sr: 4, ibs: 1, ops });
+	}
+	for i in 0..n_random {
+		let sc = gen(rng, i);
+		run_lis_one(s, "lis_generated", &sc);
+	}
+}
+
+// ==========================================================================================
+// (C) the start of a callback: `add_modulator` + a reader linked to it, both created INSIDE one
+//     `Renderer::on_start_processing`, at every point user code can run there
+// ==========================================================================================
+struct HookMod(crate::inject::Hook);
+impl Modulator for HookMod {
+	fn on_start_processing(&mut self) {
+		let h = self.0.lock().unwrap().take();
+		if let Some(h) = h {
+			h();
+		}
+	}
+	fn update(&mut self, _dt: f64, _info: &Info) {}
+	fn value(&self) -> f64 {
+		0.0
+	}
+	fn finished(&self) -> bool {
+		false
+	}
+}
+struct HookModBuilder(crate::inject::Hook);
+impl ModulatorBuilder for HookModBuilder {
+	type Handle = ();
+	fn build(self, _id: ModulatorId) -> (Box<dyn Modulator>, ()) {
+		(Box::new(HookMod(self.0)), ())
+	}
+}
+/// (chunk length, what the probe's modulator id resolves to, the linked parameter after `update`)
+type WinLog = Arc<Mutex<Vec<(usize, Option<f64>, f64)>>>;
+struct WinProbe {
+	watch: ModulatorId,
+	param: Parameter<f64>,
+	log: WinLog,
+}
+impl Effect for WinProbe {
+	fn process(&mut self, input: &mut [Frame], dt: f64, info: &Info) {
+		let len = input.len();
+		let raw = info.modulator_value(self.watch);
+		self.param.update(dt * len as f64, info);
+		self.log.lock().unwrap().push((len, raw, self.param.value()));
+	}
+}
+fn run_window(s: &mut Session) {
+	use crate::inject::{callback, shared_manager, Hook, HookFxBuilder, HookSound};
+	use kira::sound::static_sound::StaticSoundHandle;
+	#[derive(Default)]
+	struct Keep {
+		tweener: Option<TweenerHandle>,
+		tracks: Vec<TrackHandle>,
+		sounds: Vec<StaticSoundHandle>,
+	}
+	let points = [
+		"between two callbacks",
+		"a probe sound on the main track (main track's sounds drained; sub-tracks were drained before)",
+		"an effect of sub-track A (inside the mixer's sub-track loop, before the main track's sounds are drained)",
+		"a probe sound on sub-track A (A's sounds drained, A's sub-tracks not yet)",
+		"an effect of the main track (end of the mixer's turn, before clocks, listeners and modulators)",
+		"a modulator's on_start_processing (after the modulator queue was drained: the end of on_start_processing)",
+	];
+	let readers = [
+		"play(DC sound, volume linked) on the main track",
+		"play(DC sound, volume linked) on existing sub-track B",
+		"A.add_sub_track(volume linked) + play(DC sound) on it",
+		"add_sub_track with a probe effect whose Parameter<f64> is linked",
+	];
+	let (db_lo, db_hi) = (-24.0f32, 0.0f32);
+	for (pi, point) in points.iter().enumerate() {
+		for (ri, reader) in readers.iter().enumerate() {
+			for (b, init, later) in [(4usize, 0.25f64, 1.0f64), (128, 0.75, 0.0)] {
+				let sr = 1000u32;
+				let hook = Hook::default();
+				let main = if pi == 4 { MainTrackBuilder::new().with_effect(HookFxBuilder(hook.clone())) } else { MainTrackBuilder::new() };
+				let (m, r) = shared_manager(sr, b, main);
+				let keep: Arc<Mutex<Keep>> = Arc::default();
+				let plog: WinLog = Arc::default();
+				let (a, bt) = {
+					let mut g = m.lock().unwrap();
+					let ta = if pi == 2 { TrackBuilder::new().with_effect(HookFxBuilder(hook.clone())) } else { TrackBuilder::new() };
+					let mut a = g.add_sub_track(ta).unwrap();
+					let bt = g.add_sub_track(TrackBuilder::new()).unwrap();
+					match pi {
+						1 => {
+							g.play(HookSound(hook.clone())).unwrap();
+						}
+						3 => {
+							a.play(HookSound(hook.clone())).unwrap();
+						}
+						5 => {
+							g.add_modulator(HookModBuilder(hook.clone())).unwrap();
+						}
+						_ => {}
+					}
+					(Arc::new(Mutex::new(a)), Arc::new(Mutex::new(bt)))
+				};
+				let _ = callback(&r, b, 2);
+				let _ = callback(&r, b, 2);
+				let work: Box<dyn FnOnce() + Send> = Box::new({
+					let (m, keep, a, bt, plog) = (m.clone(), keep.clone(), a.clone(), bt.clone(), plog.clone());
+					move || {
+						let mut g = m.lock().unwrap();
+						let mut k = keep.lock().unwrap();
+						let tw = g.add_modulator(TweenerBuilder { initial_value: init }).unwrap();
+						let vol: Value<Decibels> = Value::FromModulator { id: tw.id(), mapping: Mapping { input_range: (0.0, 1.0), output_range: (Decibels(db_lo), Decibels(db_hi)), easing: Easing::Linear } };
+						let dc = || sound_from_frames(sr, vec![Frame::new(0.5, 0.5); 200_000]);
+						match ri {
+							0 => k.sounds.push(g.play(dc().volume(vol)).unwrap()),
+							1 => k.sounds.push(bt.lock().unwrap().play(dc().volume(vol)).unwrap()),
+							2 => {
+								let mut t = a.lock().unwrap().add_sub_track(TrackBuilder::new().volume(vol)).unwrap();
+								k.sounds.push(t.play(dc()).unwrap());
+								k.tracks.push(t);
+							}
+							_ => {
+								let param = Parameter::new(Value::FromModulator { id: tw.id(), mapping: Mapping { input_range: (0.0, 1.0), output_range: (10.0, 20.0), easing: Easing::Linear } }, 0.0);
+								let mut tb = TrackBuilder::new();
+								tb.add_built_effect(Box::new(WinProbe { watch: tw.id(), param, log: plog.clone() }));
+								k.tracks.push(g.add_sub_track(tb).unwrap());
+							}
+						}
+						k.tweener = Some(tw);
+					}
+				});
+				if pi == 0 {
+					work();
+				} else {
+					*hook.lock().unwrap() = Some(work);
+				}
+				let desc = format!(
+					"internal buffer {b}, 1000 Hz; tweener T (initial value {init:?}) and a reader linked to it are both created from {point}: add_modulator(T); {reader} (volume map 0..1 -> {db_lo}..{db_hi} dB, DC 0.5); 6 callbacks of {} frames; T.set({later:?}, immediately); 5 more callbacks",
+					2 * b + 1
+				);
+				let frames = 2 * b + 1;
+				let amp = |x: f64| 0.5 * Mapping { input_range: (0.0, 1.0), output_range: (Decibels(db_lo), Decibels(db_hi)), easing: Easing::Linear }.map(x).as_amplitude();
+				let mut bad: Option<String> = None;
+				let mut judge = |n: usize, out: &[f32], value: f64, bad: &mut Option<String>| {
+					if ri == 3 || bad.is_some() {
+						return;
+					}
+					// the last frame of every chunk carries the volume of that chunk
+					let left: Vec<f32> = out.iter().step_by(2).copied().collect();
+					let mut at = 0;
+					for len in chunk_lens(b, frames) {
+						at += len;
+						let (got, want) = (left[at - 1], amp(value));
+						if (got - want).abs() > 1e-5 {
+							*bad = Some(format!("callback {n} after the one that created them: a chunk ends at amplitude {got:?}; T is at {value:?}, so the linked volume gives {want:?} (unlinked 0 dB would be 0.5): the reader does not follow its modulator"));
+							return;
+						}
+					}
+				};
+				for n in 0..6 {
+					let out = callback(&r, frames, 2);
+					// callbacks 0 and 1 are not judged: the reader may become live one callback after the modulator, and a
+					// sound's first chunk interpolates its volume from the parameter's default
+					if n >= 2 {
+						judge(n, &out, init, &mut bad);
+					}
+				}
+				if let Some(t) = keep.lock().unwrap().tweener.as_mut() {
+					t.set(later, Tween { duration: Duration::ZERO, ..Default::default() });
+				}
+				for n in 6..11 {
+					let out = callback(&r, frames, 2);
+					if n >= 8 {
+						judge(n, &out, later, &mut bad);
+					}
+				}
+				if ri == 3 {
+					// exact: whenever the reader is live its modulator resolves ("not yet" never happens: readers_never_ahead),
+					// and the parameter is the mapping of the value resolved in the same chunk
+					let l = plog.lock().unwrap().clone();
+					let m10 = Mapping { input_range: (0.0, 1.0), output_range: (10.0f64, 20.0f64), easing: Easing::Linear };
+					for (i, (_len, raw, v)) in l.iter().enumerate() {
+						match raw {
+							None => {
+								bad = Some(format!("chunk {i} of the reader's life: it is live but its modulator, created BEFORE it, does not resolve yet (parameter {v:?})"));
+								break;
+							}
+							Some(x) => {
+								if obs64(m10.map(*x)) != obs64(*v) {
+									bad = Some(format!("chunk {i} of the reader's life: the linked parameter is {v:?}, the modulator's value in this chunk {x:?} maps to {:?}", m10.map(*x)));
+									break;
+								}
+							}
+						}
+					}
+					let last = l.last().copied();
+					if bad.is_none() {
+						match last {
+							Some((_, Some(x), _)) if x == later => {}
+							other => bad = Some(format!("at the end the probe reads {other:?} from the tweener that was sent to {later:?}")),
+						}
+					}
+				}
+				s.eval_only("window_modulator_and_reader_in_one_on_start_processing");
+				if hook.lock().unwrap().is_some() {
+					s.fail(desc.clone(), "the hook never ran".into(), None);
+				} else if let Some(w) = bad {
+					s.fail(desc.clone(), w, None);
+				}
+				let mut k = keep.lock().unwrap();
+				k.sounds.clear();
+				k.tracks.clear();
+				k.tweener = None;
+			}
+		}
+	}
+}
+
 fn describe(sc: &Scen) -> String {
 	format!("{:?}", sc)
 }
@@ -1445,7 +2659,7 @@ pub fn run(args: &Args) {
 		"From Coq Require Import ZArith List. Import ListNotations. Open Scope Z_scope.\nFrom KV Require Import Base.Corr C17.Run.",
 		"run",
 		60,
-		"one case = one whole history of a real AudioManager (modulators, clocks, probe effects added; commands; drops; callbacks of any size) observed exactly through probe effects / probe modulators; distinct = distinct history text; non-trivial = at least one modulator update observed",
+		"one case = one whole history of a real AudioManager (modulators, clocks, listeners, spatial tracks, probe effects added; commands incl. tweener sets with delayed / clock start times arriving while a transition is pending or running; drops; callbacks of any size) observed exactly through probe effects / probe modulators; distinct = distinct history text; non-trivial = at least one modulator update observed; the start-of-callback window scenarios are monitor-only",
 	);
 	let mut lag_noted = false;
 	let mut f15_noted = false;
@@ -1567,5 +2781,11 @@ pub fn run(args: &Args) {
 		let sc = dc_scenario(&mut rng);
 		run_one(&mut s, "dc_volume", &sc, None);
 	}
+	drop(run_one);
+	// the strengthened parts draw from their own stream, so the histories above stay what they were for a given seed
+	let mut rng2 = Rng::new(Rng::new(args.seed ^ 0xC17A).next());
+	run_tw(&mut s, &mut rng2, (if args.thorough { 4_000 } else { 120 }) * args.budget_mul);
+	run_lis(&mut s, &mut rng2, (if args.thorough { 3_000 } else { 100 }) * args.budget_mul);
+	run_window(&mut s);
 	s.finish();
 }
